@@ -154,6 +154,14 @@ def build_cases(tier):
     XC = 'import "verifprog/sub"\ntype withSlice struct{ s []int }\ntype plain struct{ n int }\n//go:noinline\nfunc cmpI(x, y interface{}) (r int) {\n\tdefer func() {\n\t\tif recover() != nil {\n\t\t\tr = 2\n\t\t}\n\t}()\n\tif x == y {\n\t\treturn 1\n\t}\n\treturn 0\n}\n'
     C.append(T('cross_package_instance_comparability', XC, V + 'm := map[interface{}]int{}\nm[sub.Box[plain]{plain{a}}]++\nm[sub.Box[plain]{plain{b}}]++\nprintln("c", cmpI(sub.Box[withSlice]{}, sub.Box[withSlice]{}), cmpI(sub.Box[plain]{plain{a}}, sub.Box[plain]{plain{b}}), cmpI(sub.Box[[1]withSlice]{}, sub.Box[[1]withSlice]{}), cmpI(sub.Wrap(withSlice{}), sub.Wrap(withSlice{})), cmpI(sub.Wrap(plain{a}), sub.Box[plain]{plain{a}}), len(m))',
                lambda inp: ok([('c', ['2', '(ite (= in_0 in_1) 1 0)', '2', '2', '1', '(ite (= in_0 in_1) 1 2)'])]), files={'sub/sub.go': SUB}))
+    # ---- known finding: a type declared inside a generic function used as the type argument of another generic function
+    C.append(T('nested_type_as_type_argument', 'type nbox[T any] struct{ V T }\n//go:noinline\nfunc show[T any](v T) interface{} { return nbox[T]{v} }\n//go:noinline\nfunc viaNested[T any](t T) interface{} {\n\ttype S struct{ v T }\n\treturn show(S{t})\n}\n',
+               V + 'println("n", viaNested(a) == viaNested(b), viaNested(a) == viaNested(int8(a)), viaNested("s") == viaNested("s"))',
+               lambda inp: ok([('n', ['(= in_0 in_1)', 'false', 'true'])])))
+    # ---- known finding: a named slice/map/array/pointer/func/chan/interface type declared inside a generic function over its type parameter
+    C.append(T('nested_nonstruct_types_in_generic_funcs', '//go:noinline\nfunc gather[T comparable](v, w T) (int, bool) {\n\ttype list []T\n\ttype index map[T]int\n\tvar l list\n\tl = append(l, v, w)\n\tm := index{v: 1}\n\tm[w]++\n\tvar i interface{} = l\n\t_, isList := i.(list)\n\t_, isSlice := i.([]T)\n\treturn len(l) + len(m), isList && !isSlice\n}\n',
+               V + 'n1, o1 := gather(a, b)\nn2, o2 := gather("s", "t")\nprintln("g", n1, o1, n2, o2)',
+               lambda inp: ok([('g', ['(ite (= in_0 in_1) 3 4)', 'true', '4', 'true'])])))
     # ---- known finding: explicit package-qualified instantiation with a type built from the caller's type parameter
     C.append(T('explicit_qualified_instantiation_in_generic', 'import "verifprog/sub"\n//go:noinline\nfunc viaExplicit[T any](x T) interface{} { return sub.Wrap[[]T]([]T{x}) }\n', V + '_, isB := viaExplicit(a).(sub.Box[[]int])\nprintln("r", isB)',
                lambda inp: ok([('r', ['true'])]), files={'sub/sub.go': SUB}))
